@@ -28,7 +28,8 @@ def install(R: Registry):
     R.define("I4", "mm: MessageManager",
              "forall('c:Socket', implies(dom(mm.modules)[c], c != null and mm.modules[c] != null and mm.modules[c].conn == c))")
     R.define("I4c", "mm: MessageManager",
-             "forall('m:Module t:Int', implies(mm.subscriptions[t][m] or mm.logger_modules[m], not m.conn.closed))")
+             "forall('m:Module t:Int', implies(mm.subscriptions[t][m], not m.conn.closed)) and "
+             "forall('m:Module', implies(mm.logger_modules[m], not m.conn.closed))")
     R.define("I6x", "mm: MessageManager, x: Module",
              "forall('m:Module', implies(m != x and ismod(mm, m) and not m.conn.closed, m.conn.pending == 0 and m.conn.frames == m.msg_count and m.msg_count >= 0))",
              "every live connection is at a frame boundary and its frame counter equals the module's sequence number (x: a module whose send has just failed)")
@@ -42,12 +43,15 @@ def install(R: Registry):
              "and not mm.listen_socket.closed and forall('t:Int', not mm.mm_module.subs[t]) and not mm.mm_module.is_logger "
              "and mm.mm_module.mod_id == 0")
     R.define("wf_core", "mm: MessageManager",
-             "I1w(mm) and I2(mm) and I3(mm) and I4(mm) and I4c(mm) and ghost_ok() and mm_ok(mm)")
+             "I1w(mm) and I1s(mm) and I2(mm) and I3(mm) and I4(mm) and I4c(mm) and ghost_ok() and mm_ok(mm)")
     R.define("wf_weak", "mm: MessageManager",
              "wf_core(mm) and I6(mm)",
              "invariant of the manager tables that holds at every call, including nested ones made while a module is being removed")
-    R.define("wf", "mm: MessageManager", "wf_weak(mm) and I1s(mm)",
-             "wf_weak plus: every live table entry's own subscription set is reflected in the subscription table")
+    R.define("wf", "mm: MessageManager", "wf_weak(mm)")
+    R.define("all_open", "mm: MessageManager", "forall('m:Module', implies(ismod(mm, m), not m.conn.closed))",
+             "between frames (at handler boundaries) no table entry is closed; only a module in the middle of its removal is")
+    R.define("handle_ok", "mm: MessageManager, m: Module", "m != null and implies(dom(mm.modules)[m.conn], ismod(mm, m))",
+             "a module handle is the table entry of its socket, or its socket is no longer in the table")
     R.define("mm_subs_same", "mm: MessageManager, m: Module, t: Int",
              "mm.subscriptions[t][m] == old(mm.subscriptions[t][m])")
     R.define("sub_type_of", "msg: Message", "cast(msg.data, MDF_SUBSCRIBE).msg_type",
@@ -82,8 +86,9 @@ def install(R: Registry):
     R.define("counts_monotone", "mm: MessageManager",
              "forall('m:Module', m.msg_count >= old(m.msg_count)) and "
              "forall('u:Int', mm.traffic_counter[u] >= old(mm.traffic_counter[u]) and mm.message_counts[u] >= old(mm.message_counts[u])) and "
-             "implies(old(mm.sending_traffic), mm.traffic_counter == old(mm.traffic_counter) and mm.message_counts == old(mm.message_counts))",
-             "sequence numbers and traffic counters only grow; nothing is counted while the statistics themselves are being sent")
+             "implies(old(mm.sending_traffic), mm.traffic_counter == old(mm.traffic_counter) and mm.message_counts == old(mm.message_counts)) and "
+             "forall('m:Module', implies(m.connected, old(m.connected)))",
+             "sequence numbers and traffic counters only grow; nothing is counted while the statistics themselves are being sent; no module becomes connected")
     BCAST_ENSURES = [
         ("C01 C03 C05 C07", "wf_weak(self)"),
         ("C01 C06 C07", "table_shrinks(self)"),
@@ -253,13 +258,16 @@ def install2(R: Registry):
     R.contract(M + "MessageManager.remove_module", tags="C07",
                params=dict(module="Module"),
                requires=[("C03", "wf_core(self) and I6x(self, module) and names_ok(self) and validation_off()"),
-                         ("C07", "ismod(self, module)", "a module is removed at most once: it must still be in the table"),
-                         "module != self.mm_module", "not module.conn.closed"],
+                         ("C07", "handle_ok(self, module)"), "module != self.mm_module",
+                         ("C07", "implies(ismod(self, module), not module.conn.closed)", "a module in the table is removed before it is closed, never twice")],
                modifies=BM,
                ensures=BASE_ENS + [
-                   ("C07", "not ismod(self, module) and module.conn.closed"),
+                   ("C07", "not ismod(self, module) and not dom(self.modules)[module.conn]"),
+                   ("C07", "implies(old(ismod(self, module)), module.conn.closed)"),
                    ("C07", "forall('t:Int', not self.subscriptions[t][module]) and not self.logger_modules[module]"),
-                   ("C07", "closed_notices[module] == old(closed_notices[module]) + 1"),
+                   ("C07", "implies(old(ismod(self, module)), closed_notices[module] == old(closed_notices[module]) + 1)", "exactly one CLIENT_CLOSED per departure"),
+                   ("C07", "implies(not old(ismod(self, module)), closed_notices == old(closed_notices) and self.modules == old(self.modules) and self.subscriptions == old(self.subscriptions) and gid_next == old(gid_next))",
+                    "removing a module that is already gone does nothing"),
                ],
                loops={1: dict(invariant=[
                    "module.subs == old(module.subs) and self.modules == old(self.modules) and self.logger_modules == old(self.logger_modules)",
@@ -379,3 +387,174 @@ def install3(R: Registry):
                    ("C14", "implies(not in_guard(header.msg_type), notice[cur_gid][dest_module] == old(notice[cur_gid][dest_module]) + 1 and gid_next > old(gid_next) and failed_payload_ok(old(gid_next), dest_module, header))",
                     "otherwise exactly one FAILED_MESSAGE naming the subscriber and carrying the original header is forwarded (to every FAILED_MESSAGE subscriber, by forward_message's own contract)"),
                ])
+
+
+def install4(R: Registry):
+    """fourth part: loggers, acknowledgements, connection handling, read / process, statistics"""
+    BM, BASE_REQ, BASE_ENS = R.BCAST_MODIFIES, R.BASE_REQ, R.BASE_ENS
+    NOGID = [c for c in BASE_ENS if c[1] != "older_gids_untouched()"]
+    R.define("top_gids_untouched", "",
+             "gid_next >= old(gid_next) and cur_gid == old(cur_gid) and cur_hdr == old(cur_hdr) and cur_data == old(cur_data) and "
+             "forall('g:Int m:Module', implies(1 <= g and g < old(gid_next), delivered[g][m] == old(delivered[g][m]) and notice[g][m] == old(notice[g][m]))) and "
+             "forall('g:Int', implies(1 <= g and g < old(gid_next), stray[g] == old(stray[g]) and fwd_hdr[g] == old(fwd_hdr[g]) and fwd_data[g] == old(fwd_data[g])))",
+             "sends made outside any delivery (acknowledgements) are attributed to gid 0")
+    R.define("wf_top", "mm: MessageManager", "wfw(mm) and all_open(mm) and buffers_ok(mm) and cur_gid == 0",
+             "the manager invariant between frames")
+    TOP_REQ = [("C03", "wf_top(self)")]
+    TOP_ENS = NOGID + [("C01 C14", "top_gids_untouched()"), ("C03 C07", "all_open(self) and buffers_ok(self) and cur_gid == 0")]
+    R.TOP_REQ, R.TOP_ENS, R.TOP_MOD = TOP_REQ, TOP_ENS, BM + ["glob:acks", "glob:ack_copies"]
+    TOP_MOD = BM + ["glob:acks", "glob:ack_copies"]
+
+    # ------------------------------------------------------------------ buffers of the manager
+    R.define("buffers_ok", "mm: MessageManager",
+             "mm.header_buffer != null and mm.header_buffer.role == 1 and mm.header_buffer.owner == mm and "
+             "mm.header_view != null and mm.header_view.role == 1 and mm.header_view.owner == mm and "
+             "mm.data_buffer != null and mm.data_buffer.role == 2 and mm.data_buffer.owner == mm and "
+             "mm.data_view != null and mm.data_view.role == 2 and mm.data_view.owner == mm and "
+             "nbytes(mm.data_buffer) == 1048576 and nbytes(mm.data_view) == 1048576 and nbytes(mm.header_buffer) == mm.header_size and "
+             "(mm.header_size == 48 or mm.header_size == 56) and mm.hdr_obj != null and mm.data_obj != null and "
+             "(mm.header_cls == classid(MessageHeader) or mm.header_cls == classid(TimeCodeMessageHeader)) and dtype(mm.hdr_obj) == mm.header_cls")
+    R.external("Socket.recv_into", params=dict(self="Socket", buf="Buffer", n="Int", flags="Int"), returns="Int",
+               requires=[("C03", "not self.closed", "recv on a closed socket raises OSError"),
+                         ("C03 C05", "0 <= n and n <= nbytes(buf)", "recv_into raises ValueError for a negative size or one larger than the buffer")],
+               modifies=["MessageManager.hdr_obj", "MessageManager.data_obj"],
+               ensures=["0 <= result and result <= n",
+                        "implies(buf.role == 1, fresh(buf.owner.hdr_obj) and allocated(buf.owner.hdr_obj) and dtype(buf.owner.hdr_obj) == buf.owner.header_cls and buf.owner.data_obj == old(buf.owner.data_obj))",
+                        "implies(buf.role != 1, fresh(buf.owner.data_obj) and allocated(buf.owner.data_obj) and buf.owner.hdr_obj == old(buf.owner.hdr_obj))",
+                        "forall('mm:MessageManager', implies(mm != buf.owner, mm.hdr_obj == old(mm.hdr_obj) and mm.data_obj == old(mm.data_obj)))"],
+               raises={"ConnectionError": [
+                        "implies(buf.role == 1, fresh(buf.owner.hdr_obj) and allocated(buf.owner.hdr_obj) and dtype(buf.owner.hdr_obj) == buf.owner.header_cls and buf.owner.data_obj == old(buf.owner.data_obj))",
+                        "implies(buf.role != 1, fresh(buf.owner.data_obj) and allocated(buf.owner.data_obj) and buf.owner.hdr_obj == old(buf.owner.hdr_obj))",
+                        "forall('mm:MessageManager', implies(mm != buf.owner, mm.hdr_obj == old(mm.hdr_obj) and mm.data_obj == old(mm.data_obj)))"]},
+               doc="MSG_WAITALL read: k <= n bytes (k < n only if the peer closed), or a ConnectionError; the buffer holds arbitrary bytes afterwards")
+
+    # ------------------------------------------------------------------ send_to_loggers / send_ack (C19, C14)
+    R.contract(M + "MessageManager.send_to_loggers", tags="C19 C14 C03",
+               params=dict(header="MessageHeader", payload="Buffer"),
+               requires=TOP_REQ + [("C05", "header != null and nbytes(payload) == header.num_data_bytes")],
+               modifies=TOP_MOD,
+               ghost_after={"Module.send_message": "ack_copies = store(ack_copies, module, ack_copies[module] + 1)"},
+               ensures=TOP_ENS + [
+                   ("C19", "acks == old(acks)"),
+                   ("C19", "forall('m:Module', implies(self.logger_modules[m] and not m.conn.closed, ack_copies[m] == old(ack_copies[m]) + 1))",
+                    "every logger module (still connected afterwards) received exactly one copy"),
+                   ("C19", "forall('m:Module', implies(not old(self.logger_modules[m]), ack_copies[m] == old(ack_copies[m])))"),
+                   ("C19", "forall('m:Module', ack_copies[m] <= old(ack_copies[m]) + 1 and ack_copies[m] >= old(ack_copies[m]))"),
+                   ("C01", "header.msg_type == old(header.msg_type) and header.dest_mod_id == old(header.dest_mod_id) and header.num_data_bytes == old(header.num_data_bytes)"),
+               ],
+               loops={1: dict(invariant=[
+                   "wf_top(self) and table_shrinks(self) and subs_shrink(self) and departed(self) and stays_if_closed(self) and counts_monotone(self) and top_gids_untouched()",
+                   "acks == old(acks) and self.wlist == old(self.wlist)",
+                   "header.msg_type == old(header.msg_type) and header.dest_mod_id == old(header.dest_mod_id) and header.num_data_bytes == old(header.num_data_bytes)",
+                   "forall('m:Module', implies(old(self.logger_modules[m]), implies(ismod(self, m) and not m.conn.closed and self.logger_modules[m], ack_copies[m] == old(ack_copies[m]) + ite(done[m], 1, 0))))",
+                   "forall('m:Module', implies(not old(self.logger_modules[m]), ack_copies[m] == old(ack_copies[m])))",
+                   "forall('m:Module', ack_copies[m] <= old(ack_copies[m]) + 1 and ack_copies[m] >= old(ack_copies[m]))",
+                   "forall('m:Module', implies(not done[m], ack_copies[m] == old(ack_copies[m])))",
+               ])})
+    R.contract(M + "MessageManager.send_ack", tags="C19 C03 C05",
+               params=dict(src_module="Module"),
+               requires=TOP_REQ + ["handle_ok(self, src_module)", "src_module != self.mm_module"],
+               modifies=TOP_MOD,
+               ghost_after={"Module.send_message": "acks = store(acks, src_module, acks[src_module] + 1)"},
+               ensures=TOP_ENS + [
+                   ("C19", "forall('m:Module', implies(m != src_module, acks[m] == old(acks[m])))", "no other module is acknowledged"),
+                   ("C19", "implies(old(ismod(self, src_module)) and ismod(self, src_module) and not src_module.conn.closed, acks[src_module] == old(acks[src_module]) + 1)",
+                    "exactly one ACKNOWLEDGE on the requester's own connection"),
+                   ("C19", "acks[src_module] <= old(acks[src_module]) + 1 and acks[src_module] >= old(acks[src_module])"),
+                   ("C19", "implies(not old(ismod(self, src_module)), acks == old(acks) and ack_copies == old(ack_copies))"),
+                   ("C19", "implies(old(ismod(self, src_module)), forall('m:Module', implies(self.logger_modules[m] and not m.conn.closed, ack_copies[m] == old(ack_copies[m]) + 1)))",
+                    "each acknowledgement is also copied to every logger module"),
+                   ("C19", "forall('m:Module', ack_copies[m] <= old(ack_copies[m]) + 1 and ack_copies[m] >= old(ack_copies[m]))"),
+               ])
+
+
+def install5(R: Registry):
+    """fifth part: identity (C06), read / process (C01 C03 C05 C19)"""
+    TOP_REQ, TOP_ENS, TOP_MOD = R.TOP_REQ, R.TOP_ENS, R.TOP_MOD
+    R.mark_inline(M + "MessageManager.register_module_ready", M + "MessageManager.set_module_name", M + "MessageManager.header",
+                  M + "MessageManager.message", M + "MessageManager.generate_uid", "pyrtma.message:Message.__init__")
+    R.define("clash", "a: Module, b: Module",
+             "(a.mod_id == b.mod_id and (a.unique or b.unique)) ",
+             "two modules with the same id, at least one of which did not allow multiple instances")
+    R.define("ids_ok", "mm: MessageManager",
+             "forall('a:Module b:Module', implies(ismod(mm, a) and ismod(mm, b) and a != b and a.connected and b.connected and a.mod_id != 0, not clash(a, b))) and "
+             "forall('a:Module', implies(ismod(mm, a) and a.connected, 0 <= a.mod_id and a.mod_id < 200)) and "
+             "0 <= mm.next_dynamic_mod_id_offset and mm.next_dynamic_mod_id_offset < 100",
+             "no two connected modules share an id unless both allow multiple instances; ids are in range")
+    IDENT = ["Module.mod_id", "Module.unique", "Module.pid", "Module.name", "Module.is_logger", "Module.is_daemon", "Module.connected"]
+    R.define("others_identity_same", "mm: MessageManager, x: Module",
+             "forall('m:Module', implies(m != x, m.mod_id == old(m.mod_id) and m.unique == old(m.unique) and m.name == old(m.name) and "
+             "m.pid == old(m.pid) and m.is_logger == old(m.is_logger) and m.is_daemon == old(m.is_daemon) and implies(m.connected, old(m.connected))))",
+             "identity of every other module is untouched (an incumbent is never disturbed by another client's request)")
+
+    R.contract(M + "MessageManager.assign_module_id", tags="C06 C03", returns="Int",
+               requires=[("C03", "wfw(self)"), "0 <= self.next_dynamic_mod_id_offset and self.next_dynamic_mod_id_offset < 100"],
+               modifies=R.BCAST_MODIFIES + ["MessageManager.next_dynamic_mod_id_offset"],
+               ensures=R.BASE_ENS + [
+                   ("C06", "100 <= result and result < 200", "a dynamic id comes from the dynamic range"),
+                   ("C06", "forall('m:Module', implies(old(ismod(self, m)), m.mod_id != result))", "that no module in the table holds"),
+                   ("C06", "0 <= self.next_dynamic_mod_id_offset and self.next_dynamic_mod_id_offset < 100"),
+                   ("C06", "self.modules == old(self.modules)"),
+               ],
+               raises={"RuntimeError": R.BASE_ENS + [
+                   ("C06", "0 <= self.next_dynamic_mod_id_offset and self.next_dynamic_mod_id_offset < 100"),
+               ]},
+               loops={1: dict(invariant=[
+                   "0 <= self.next_dynamic_mod_id_offset and self.next_dynamic_mod_id_offset < 100",
+                   "self.modules == old(self.modules) and wfw(self)",
+                   "forall('m:Module', m.mod_id == old(m.mod_id))",
+               ])})
+
+    R.define("rid", "msg: Message", "ite(typeis(msg.data, MDF_CONNECT_V2), cast(msg.data, MDF_CONNECT_V2).mod_id, msg.header.src_mod_id)",
+             "the module id a connection request asks for")
+    R.define("subs_shrink_x", "mm: MessageManager, x: Module",
+             "forall('m:Module t:Int', implies(mm.subscriptions[t][m], old(mm.subscriptions[t][m]))) and "
+             "forall('m:Module t:Int', implies(ismod(mm, m) and not m.conn.closed, mm.subscriptions[t][m] == old(mm.subscriptions[t][m]))) and "
+             "forall('m:Module', implies(mm.logger_modules[m] and m != x, old(mm.logger_modules[m]))) and "
+             "forall('m:Module', implies(ismod(mm, m) and not m.conn.closed and m != x, mm.logger_modules[m] == old(mm.logger_modules[m])))")
+    R.define("counts_monotone_x", "mm: MessageManager, x: Module",
+             "forall('m:Module', m.msg_count >= old(m.msg_count)) and "
+             "forall('u:Int', mm.traffic_counter[u] >= old(mm.traffic_counter[u]) and mm.message_counts[u] >= old(mm.message_counts[u])) and "
+             "implies(old(mm.sending_traffic), mm.traffic_counter == old(mm.traffic_counter) and mm.message_counts == old(mm.message_counts)) and "
+             "forall('m:Module', implies(m.connected and m != x, old(m.connected)))")
+    CONN_ENS = [(t, c.replace("subs_shrink(self)", "subs_shrink_x(self, module)").replace("counts_monotone(self)", "counts_monotone_x(self, module)")) for t, c in TOP_ENS]
+    R.contract(M + "MessageManager.connect_module", tags="C06 C03 C19", returns="Bool",
+               params=dict(module="Module", msg="Message"),
+               requires=TOP_REQ + [("C06", "ids_ok(self)"), "ismod(self, module)", "module != self.mm_module", "msg != null and msg.data != null and msg.header != null",
+                                   "typeis(msg.data, MDF_CONNECT_V2) or typeis(msg.data, MDF_CONNECT)"],
+               modifies=TOP_MOD + IDENT + ["MessageManager.next_dynamic_mod_id_offset"],
+               ensures=CONN_ENS + [
+                   ("C06", "ids_ok(self)"),
+                   ("C06", "others_identity_same(self, module)"),
+                   ("C06 C19", "implies(old(module.connected), not result and module.mod_id == old(module.mod_id) and module.unique == old(module.unique) and module.name == old(module.name) and module.connected and "
+                               "self.modules == old(self.modules) and acks == old(acks) and ack_copies == old(ack_copies))",
+                    "the CONNECT that follows an accepted CONNECT_V2 is ignored"),
+                   ("C06", "implies(result, ismod(self, module) and module.connected and not old(module.connected))"),
+                   ("C06", "implies(result and rid(msg) != 0, module.mod_id == rid(msg) and 1 <= rid(msg) and rid(msg) <= 100)", "an explicit id takes effect as named and lies in the user range"),
+                   ("C06", "implies(result and rid(msg) == 0, 100 <= module.mod_id and module.mod_id < 200 and forall('m:Module', implies(ismod(self, m) and m != module, m.mod_id != module.mod_id)))",
+                    "id 0: an id from the dynamic range that no live module holds"),
+                   ("C06", "implies(result and typeis(msg.data, MDF_CONNECT_V2), module.unique == (cast(msg.data, MDF_CONNECT_V2).allow_multiple == 0) and module.pid == cast(msg.data, MDF_CONNECT_V2).pid and "
+                           "module.name == cast(msg.data, MDF_CONNECT_V2).name and module.is_logger == (cast(msg.data, MDF_CONNECT_V2).logger_status == 1) and module.is_daemon == (cast(msg.data, MDF_CONNECT_V2).daemon_status == 1))",
+                    "logger / daemon / allow-multiple / name / pid take effect exactly as named"),
+                   ("C06", "implies(result and typeis(msg.data, MDF_CONNECT), module.is_logger == (cast(msg.data, MDF_CONNECT).logger_status == 1) and module.is_daemon == (cast(msg.data, MDF_CONNECT).daemon_status == 1) and module.unique == old(module.unique))"),
+                   ("C06", "implies(result, forall('m:Module', implies(ismod(self, m) and m != module and module.mod_id < 100, not clash(m, module))))", "never two holders of a unique id"),
+                   ("C06", "implies(result and rid(msg) != 0 and len(module.name) > 0, forall('m:Module', implies(ismod(self, m) and m != module, not ((m.unique or module.unique) and m.name == module.name))))",
+                    "an explicit id with the name of a unique module is refused"),
+                   ("C06 C07", "implies(not result and not old(module.connected), not ismod(self, module) and module.conn.closed)", "a refused request is closed"),
+                   ("C19", "acks == old(acks) and ack_copies == old(ack_copies)"),
+                   ("C06", "implies(result and module.is_logger, self.logger_modules[module])"),
+               ],
+               loops={1: dict(invariant=[
+                   "wf_top(self) and table_shrinks(self) and subs_shrink(self) and departed(self) and stays_if_closed(self) and counts_monotone(self) and top_gids_untouched()",
+                   "ids_ok(self) and others_identity_same(self, module) and acks == old(acks) and ack_copies == old(ack_copies)",
+                   "not old(module.connected) and not module.connected and module.mod_id == rid(msg) and module.mod_id != 0 and 1 <= module.mod_id and module.mod_id <= 100",
+                   "implies(typeis(msg.data, MDF_CONNECT_V2), module.unique == (cast(msg.data, MDF_CONNECT_V2).allow_multiple == 0) and module.pid == cast(msg.data, MDF_CONNECT_V2).pid and "
+                   "module.name == cast(msg.data, MDF_CONNECT_V2).name and isascii(module.name) and len(module.name) <= 32)",
+                   "implies(typeis(msg.data, MDF_CONNECT), module.unique == old(module.unique) and module.name == old(module.name))",
+                   "module.is_logger == (cast(msg.data, MDF_CONNECT).logger_status == 1) and module.is_daemon == (cast(msg.data, MDF_CONNECT).daemon_status == 1)",
+                   "implies(ismod(self, module), not module.conn.closed)",
+                   "forall('j:Int', implies(0 <= j and j < idx and seq[j] != module and ismod(self, seq[j]), not clash(seq[j], module) and "
+                   "implies(len(module.name) > 0, not ((seq[j].unique or module.unique) and seq[j].name == module.name))))",
+                   "forall('m:Module', implies(old(ismod(self, m)), exists('j:Int', 0 <= j and j < len(seq) and seq[j] == m)))",
+                   "self.next_dynamic_mod_id_offset == old(self.next_dynamic_mod_id_offset)",
+               ])})
